@@ -308,8 +308,19 @@ def c10(ck):
     ck.replayed += len(ev)
     if ck.violations:
         return
-    ck.trace("ell", "ell", ["-n", q(ck, 1500, 10000)], "TraceEllipsis", "TraceEllipsis.cfg", ["InvC10"], agree=["InvAgreeC10"],
-             nontrivial=nt, key=key)
+    evs = ck.trace("ell", "ell", ["-n", q(ck, 1500, 10000)], "TraceEllipsis", "TraceEllipsis.cfg", ["InvC10"], agree=["InvAgreeC10"],
+                   nontrivial=nt, key=key)
+    # which steps of the fill machine the real runs took (vacuity guard: all four, and a re-used dimension slot)
+    ops, reuse, maxdim = {}, 0, 0
+    for e in evs:
+        for h in e.get("hooks", []):
+            ops[h["op"]] = ops.get(h["op"], 0) + 1
+            maxdim = max(maxdim, h["dim"])
+            if h["op"] == "growDimension" and h["dim"] < len(h["idx"]):
+                reuse += 1
+    ck.extra["fill_machine_steps_observed"] = dict(ops, dimension_slot_reused=reuse, deepest_dimension=maxdim)
+    if not ck.violations and (len(ops) < 4 or reuse == 0):
+        raise ToolError("the random templates did not exercise every step of the fill machine: %s" % ops)
     ck.assumptions.append(ITEMS_NOTE)
 
 
@@ -424,8 +435,12 @@ def c06(ck):
     ck.rule.append("model: inputs <= 3 (quick) / 4 symbols over 26 classes x 2 start states; traces: token soups and plausible texts, lexer hook "
                    "streams, ~385 hostile inputs in a worker; non-trivial = text longer than 5 chars; distinct by text")
     _sml_models(ck, ["lexer"])
-    ck.trace("soup", "soup", ["-n", q(ck, 2500, 25000)], "TraceSml", "TraceSml.cfg", ["InvC06"], agree=["InvAgreeParse"],
-             nontrivial=lambda e: len(e.get("text", [])) > 5, key=SML_KEY)
+    evs = ck.trace("soup", "soup", ["-n", q(ck, 2500, 25000)], "TraceSml", "TraceSml.cfg", ["InvC06"], agree=["InvAgreeParse"],
+                   nontrivial=lambda e: len(e.get("text", [])) > 5, key=SML_KEY)
+    ck.extra["soup_outcomes"] = dict(accepted=sum(1 for e in evs if e.get("msgs")), rejected=sum(1 for e in evs if e.get("errs")),
+                                     with_warnings=sum(1 for e in evs if e.get("warns")),
+                                     several_errors=sum(1 for e in evs if len(e.get("errs", [])) > 1),
+                                     several_messages=sum(1 for e in evs if len(e.get("msgs", [])) > 1))
     if ck.violations:
         return
     ck.trace("lex", "lex", ["-n", q(ck, 1500, 15000)], "TraceSml", "TraceSml.cfg", [], agree=["InvAgreeLex"],
